@@ -48,7 +48,7 @@ theorem same_setStk (s : St) (t fs) : Same s (s.setStk t fs) t :=
 
 theorem same_vdrain (s : St) (t rest) (v : List ObjId) : Same s (vdrain s t rest v) t := by
   induction v generalizing s with
-  | nil => exact Same.trans (b := { s with vec := [] }) ⟨rfl, rfl, rfl, rfl, rfl, rfl, rfl, rfl, fun _ _ => rfl⟩ (same_setStk _ _ _)
+  | nil => exact Same.trans (b := { s with vec := [], vdead := true }) ⟨rfl, rfl, rfl, rfl, rfl, rfl, rfl, rfl, fun _ _ => rfl⟩ (same_setStk _ _ _)
   | cons k v ih =>
     simp only [vdrain]
     split
@@ -72,7 +72,7 @@ theorem same_dDone (s : St) (t r rest) : Same s (dDone s t r rest) t := by
   unfold dDone; split
   · exact same_setStk _ _ _
   · exact same_xAfter _ _ _ _
-  · exact Same.trans (b := { s with vdead := true }) ⟨rfl, rfl, rfl, rfl, rfl, rfl, rfl, rfl, fun _ _ => rfl⟩ (same_vdrain _ _ _ _)
+  · exact same_vdrain _ _ _ _
   · exact same_setStk _ _ _
 
 theorem same_drain (s : St) (t sz cbs thrown rest) (ec : List ObjId) : Same s (drain s t sz cbs thrown rest ec) t := by
